@@ -113,6 +113,8 @@ impl<'a> Parser<'a> {
 
                     let mut args = vec![];
                     loop {
+                        #[cfg(feature = "verif-hooks")]
+                        crate::verif_hooks::tick();
                         self.skip();
                         args.push(self.parse_expr()?);
                         if !self.at(TokenKind::Comma) {
